@@ -395,7 +395,7 @@ func (s *sim) big() {
 		s.exths(2)
 	}
 	s.wait(5 + s.rng.Intn(100))
-	n := 55 + s.rng.Intn(80)
+	n := 75 + s.rng.Intn(60)
 	for i := 0; i < n; i++ {
 		s.connect(10 + i)
 		if s.rng.Intn(10) == 0 {
@@ -407,13 +407,11 @@ func (s *sim) big() {
 	s.exths(10 + s.rng.Intn(n))
 	s.wait(61 + s.rng.Intn(200))
 	// mass disconnect, some of them before they were ever announced
-	m := 52 + s.rng.Intn(n-52+1)
+	// (inside one flush period, and enough of them that more than 50 stay dropped after the reconnects below)
+	m := 65 + s.rng.Intn(n-65+1)
 	perm := s.rng.Perm(n)
 	for i := 0; i < m; i++ {
 		s.disconnect(10 + perm[i])
-		if s.rng.Intn(12) == 0 {
-			s.wait(s.rng.Intn(2))
-		}
 	}
 	// some come back inside the same minute
 	for i := 0; i < 10; i++ {
